@@ -163,6 +163,20 @@ def unavoidable_calls(body, entry, region=None):
             k = must_kind(t.get("res") or "")
             if k and not exits_reachable(b):
                 out[k] += 1
+    # an effect written once in a loop over a fixed-size array (`for w in [a, b, c] { write(w)? }`) happens once per
+    # element: when the loop itself cannot be bypassed and the call runs on every iteration it counts N times
+    from ..loops import trip_counts
+
+    for h, (n, blocks, next_bb, _elems) in trip_counts(body).items():
+        if n < 1 or next_bb not in nodes or exits_reachable(next_bb):
+            continue
+        latches = [p for p in body.pred(h) if p in blocks]
+        for b in sorted(blocks & nodes):
+            t = body.blocks[b]["t"]
+            if t["k"] == "call" and b != next_bb and all(body.dominates(b, l_) for l_ in latches):
+                k = must_kind(t.get("res") or "")
+                if k and exits_reachable(b):  # not already counted as unavoidable on its own
+                    out[k] += n
     return out
 
 
@@ -227,14 +241,46 @@ def run(ctx):
                 a = op_place(rv["a"])
                 shifts.append(("param3" if (a and derive(ix, rv["a"]).params == {3}) else const_int(rv["a"]), const_int(rv["b"])))
         ctx.ob("SHIFT", "empty-block|wipe-length", ("param3", 7) in shifts, f"write_empty_file_block_at shifts {shifts}; the wipe length must be block_number << 7", eb.file, eb.line)
-        ctx.ob("SHIFT", "empty-block|block-size", (1, 7) in shifts, "the empty block header states block size 1 << 7", eb.file, eb.line)
         # header words: size(128), 0, 0, block_number - 1, 0 written in this order after seeking back to the offset
+        from ..loops import trip_counts
+
+        tc = trip_counts(eb)
+
+        def written_value(t_):
+            """operand whose to_le_bytes() a write_all call writes"""
+            d_ = derive(ix, t_["args"][1])
+            for bj, tj in eb.calls():
+                if (tj.get("res") or "").endswith("::to_le_bytes") and tj.get("dest") and tj["dest"]["l"] in d_.locals and tj["args"]:
+                    return tj["args"][0]
+            return None
+
+        def classify_word(o):
+            r_ = ix.resolve(o)
+            d_ = derive(ix, o)
+            if 3 in d_.params and 1 in d_.consts and ("Sub" in d_.ops or any(x.endswith("checked_sub") for x in d_.calls)):
+                return "count-1"
+            if r_[0] == "const":
+                return "size" if r_[1] == 128 else "zero" if r_[1] == 0 else f"const {r_[1]}"
+            if d_.consts == {1, 7} and "Shl" in d_.ops:
+                return "size"
+            return "?"
+
         seq = []
-        for bi, t in sorted(eb.calls()):
+        size_word = False
+        for bi, t in sorted(eb.calls(), key=lambda x: (len([1 for y, _t in eb.calls() if y != x[0] and eb.dominates(y, x[0])]), x[0])):
             c = t.get("res") or ""
-            if effect_kind(c) == "write_all":
+            if effect_kind(c) != "write_all":
+                continue
+            loop = next(((n_, el_) for h_, (n_, bl_, _nb, el_) in tc.items() if bi in bl_), None)
+            v = written_value(t)
+            if loop and loop[1] is not None and v is not None and any(c_.split("::")[-1] == "next" for c_ in derive(ix, v).calls):
+                seq += [classify_word(o_) for o_ in loop[1]]
+            elif v is not None:
+                seq.append(classify_word(v))
+            else:
                 d = derive(ix, t["args"][1])
-                seq.append("count-1" if (3 in d.params and 1 in d.consts and ("Sub" in d.ops or any(x.endswith("checked_sub") for x in d.calls))) else ("size" if 7 in d.consts and 1 in d.consts else "zero" if d.consts <= {0} and not d.params else "?"))
+                seq.append("count-1" if (3 in d.params and 1 in d.consts and ("Sub" in d.ops or any(x.endswith("checked_sub") for x in d.calls))) else ("size" if 7 in d.consts and 1 in d.consts else "zero" if d.consts <= {0} else "?"))
+        ctx.ob("SHIFT", "empty-block|block-size", (1, 7) in shifts or "size" in seq, "the empty block header states block size 1 << 7 (= 128)", eb.file, eb.line)
         ctx.ob("SHIFT", "empty-block|header-words", seq == ["size", "zero", "zero", "count-1", "zero"], f"empty block header words written: {seq}; reference [block size, 0, 0, block count - 1, 0]", eb.file, eb.line)
 
     # ---- BLOCK: the patch block reader consumes each block up to its 128-byte aligned end
@@ -537,7 +583,7 @@ def run(ctx):
     det = "no constant seek"
     for bi, t in calls_in(("Sqpk", "HeaderUpdate", None), "seek"):
         r = ix.resolve(t["args"][1])
-        if r[0] == "rv" and r[1]["k"] == "agg" and r[1].get("variant") == "Start" and const_int(r[1]["ops"][0]) == 1024:
+        if r[0] == "rv" and r[1]["k"] == "agg" and r[1].get("variant") == "Start" and (const_int(r[1]["ops"][0]) == 1024 or ix.resolve(r[1]["ops"][0]) == ("const", 1024)):
             det = "seek(Start(1024)) found"
             # dominated by a branch on `header_kind != Version`: a call to PartialEq::ne / eq with header_kind
             idom = ab.idom()
@@ -554,6 +600,42 @@ def run(ctx):
                         taken = true_t if is_ne else false_t
                         ok = taken is not None and ab.dominates(taken, bi)
                 cur = par
+    if not ok and det != "no constant seek":
+        # the same test spelled on the discriminant (`matches!(kind, Version)`, possibly inside a small predicate helper):
+        # the seek is reachable from the non-Version arms of a switch on header_kind's discriminant and not from the
+        # Version arm
+        hkv = {v_["name"]: int(v_["discr"]) for v_ in (prog.adts.get("patch::TargetHeaderKind") or {}).get("variants", [])}
+        reg_h = regions.get(("Sqpk", "HeaderUpdate", None), set())
+        for bi, t in calls_in(("Sqpk", "HeaderUpdate", None), "seek"):
+            r = ix.resolve(t["args"][1])
+            if not (r[0] == "rv" and r[1]["k"] == "agg" and r[1].get("variant") == "Start" and ix.resolve(r[1]["ops"][0]) == ("const", 1024)):
+                continue
+            for sb_ in reg_h:
+                tt = ab.term(sb_)
+                if tt["k"] != "switch":
+                    continue
+                rr = ix.resolve(tt["a"])
+                if not (rr[0] == "rv" and rr[1]["k"] == "discr" and "header_kind" in derive(ix, {"c": rr[1]["p"]}).names) or "Version" not in hkv:
+                    continue
+
+                def reach_wo(start, goal, avoid):
+                    seen, todo = set(), [start]
+                    while todo:
+                        x = todo.pop()
+                        if x == goal:
+                            return True
+                        if x in seen or x == avoid or x not in reg_h:
+                            continue
+                        seen.add(x)
+                        todo += list(ab.succ(x))
+                    return False
+
+                arms = {int(v_): tg for v_, tg in tt["arms"]}
+                ver_t = arms.get(hkv["Version"], tt.get("else"))
+                others = [tg for v_, tg in arms.items() if v_ != hkv["Version"]] + ([tt["else"]] if hkv["Version"] in arms and tt.get("else") is not None else [])
+                others = [o_ for o_ in others if isinstance(o_, int) and o_ >= 0 and ab.blocks[o_]["t"]["k"] != "unreachable"]
+                if isinstance(ver_t, int) and others and not reach_wo(ver_t, bi, sb_) and all(reach_wo(o_, bi, sb_) for o_ in others):
+                    ok = True
     ctx.ob("PROV", "HeaderUpdate|second-kib", ok, f"{det}; it must lie on the header_kind != Version edge (Version overwrites the first KiB, Index/Data the second)", ab.file, ab.line)
     # file paths of FileOperation derive from data_dir and fop.path; RemoveAll from expansion_id
     fp = None
